@@ -492,9 +492,16 @@ void scan_deps(const std::string& orig_portname, std::string cur_portname,
         cur_portname.size() && (last_slash = cur_portname.find_last_of('/')) != std::string::npos;
           cur_portname.resize(last_slash))
     {
-        const Port* port = ports.apropos(cur_portname.c_str());
-        if(!port) // enumerated subtrees ("many#3/") are only found as "many1/"
-            port = ports.apropos((cur_portname + "/").c_str());
+        // parents are sub-trees: ask for "leaf/" first, since "leaf" alone
+        // also finds a sibling that merely starts with it (e.g. "leaf_on");
+        // enumerated subtrees ("many#3/") are only found as "many1/" anyway
+        const bool is_parent = cur_portname != scan_start;
+        const std::string as_subtree = cur_portname + "/";
+        const Port* port = ports.apropos(is_parent ? as_subtree.c_str()
+                                                   : cur_portname.c_str());
+        if(!port)
+            port = ports.apropos(is_parent ? cur_portname.c_str()
+                                           : as_subtree.c_str());
         // an object can also be enabled through its own table:
         // rSelf(..., rEnabledBy(x)), where x is relative to the object
         const Port* self = (port && port->ports) ? (*port->ports)["self:"]
